@@ -297,7 +297,7 @@ def r20_5(ctx):
                         r is not None and r.get('mn', '').startswith('EXTERNAL_VARIABLE_TYPE_') and \
                         r['mn'] != 'EXTERNAL_VARIABLE_TYPE_NULL':
                     produced.setdefault(r['mn'], (f, n))
-    ctx.require(len(produced) >= 5 or ctx.fixture, 'only %d external types are ever stored' % len(produced))
+    ctx.require(len(produced) >= 3 or ctx.fixture, 'only %d external types are ever stored' % len(produced))
     n_sw = 0
     for f in prog.fns():
         k = 0
